@@ -27,6 +27,11 @@ def setup(ns, ctx, cfg):
     ctx.solver.add(de.e > 0)
     inputs = [de]
     E = dict(sizes=sizes, n=n, de=de, kind=kind, state=st)
+    # provisional realiser: an exception while the inputs are being built (e.g. the dissimilarity's own self-check) is replayed too
+    ctx.notes["realize"] = lambda m: dict(kind="pipeline", construct_only=True, sizes=list(sizes), mode=cfg.get("mode", "best"), dissim=kind,
+                                          backend=cfg.get("backend", "cbc"), de=common.frs(mval(m, de)), alpha="1", beta="1",
+                                          units=[[ANN[a], str(10 * j + a), str(10 * j + a + 5), "xy"[j % 2]] for a in range(n) for j in range(sizes[a])],
+                                          annotators=[ANN[a] for a in range(n)], pairs={})
     if kind == "abstract":
         c, info = common.build_continuum(ns, ctx, sizes, coords="fixed", labels="unique")
         D, table = common.make_abstract_dissim(ns, ctx, de, c.categories)
